@@ -18,7 +18,20 @@ pub mod cases;
 pub mod mapped;
 
 pub const N: usize = 8;
-pub const BASE: u64 = 0x0000_0040_0020_0000; // 2MiB-aligned, above 4GiB: table frames that are huge-page aligned
+/// All table frames lie at or above BASE; data frames used by the harnesses lie below it.
+pub const BASE: u64 = 0x0000_0040_0000_0000;
+/// Physical addresses of the pool's frames: deliberately not contiguous, and some are 2MiB- or 1GiB-aligned
+/// (a table frame that is huge-page aligned passes the alignment test of the huge-page code paths).
+pub const PHYS: [u64; N] = [
+    0x0000_0040_0000_0000, // POOL[0] level 4
+    0x0000_0040_0020_1000, // POOL[1]
+    0x0000_0040_4000_0000, // POOL[2]  1GiB-aligned (level-2 table of the path)
+    0x0000_0040_0040_0000, // POOL[3]  2MiB-aligned (level-1 table of the path)
+    0x0000_0040_0020_4000, // POOL[4]
+    0x0000_0040_0060_0000, // POOL[5]  2MiB-aligned
+    0x0000_0040_8000_0000, // POOL[6]  1GiB-aligned
+    0x0000_0040_0020_7000, // POOL[7]
+];
 pub const ADDR: u64 = 0x000f_ffff_ffff_f000; // bits 12-51
 pub const P: u64 = 1; // present
 pub const W: u64 = 2;
@@ -33,21 +46,24 @@ pub static mut SINK: PageTable = PageTable::new();
 pub static mut STRAY_ACCESS: bool = false;
 
 pub fn raw(k: usize, i: usize) -> u64 {
-    unsafe { *(core::ptr::addr_of!(POOL[k]) as *const u64).add(i) }
+    unsafe { crate::structures::paging::page_table::verif_pt::raw_get(&POOL[k], i) }
 }
 pub fn set_raw(k: usize, i: usize, v: u64) {
-    unsafe { *(core::ptr::addr_of_mut!(POOL[k]) as *mut u64).add(i) = v }
+    unsafe { crate::structures::paging::page_table::verif_pt::raw_set(&mut POOL[k], i, v) }
 }
 pub fn table_phys(k: usize) -> u64 {
-    BASE + 4096 * k as u64
+    PHYS[k]
 }
 /// pool index of a physical frame address, if it is a pool frame
 pub fn pool_index(pa: u64) -> Option<usize> {
-    if pa >= BASE && pa < BASE + 4096 * N as u64 && pa % 4096 == 0 {
-        Some(((pa - BASE) / 4096) as usize)
-    } else {
-        None
+    let mut k = 0;
+    while k < N {
+        if pa == PHYS[k] {
+            return Some(k);
+        }
+        k += 1;
     }
+    None
 }
 
 /// S-zero: `PageTable::zero` as one whole-table assignment.  The real 512-iteration loop through a
@@ -81,10 +97,11 @@ pub struct Alloc {
     pub calls: u8,
     pub given: [usize; 4],
     pub ngiven: usize,
+    pub descending: bool,
 }
 impl Alloc {
     pub fn new(free: [bool; N], fail_at: u8) -> Self {
-        Alloc { free, fail_at, calls: 0, given: [0; 4], ngiven: 0 }
+        Alloc { free, fail_at, calls: 0, given: [0; 4], ngiven: 0, descending: false }
     }
 }
 unsafe impl FrameAllocator<Size4KiB> for Alloc {
@@ -93,9 +110,13 @@ unsafe impl FrameAllocator<Size4KiB> for Alloc {
         if self.fail_at != 0 && self.calls >= self.fail_at {
             return None;
         }
-        // any free frame, in any order (recycled frames keep their stale contents)
-        let k: usize = kani::any();
-        kani::assume(k >= 1 && k < N && self.free[k]);
+        // Frames are handed out from the never-linked part of the pool (stale contents included).
+        // `order` fixes the sequence per harness instance: a symbolic table index per allocation makes
+        // every later memory access an 8-way multiplexer over 512-slot arrays (SSA->CNF did not finish).
+        let k = if self.descending { N - 1 - self.ngiven } else { 5 + self.ngiven };
+        if k >= N || k < 5 || !self.free[k] {
+            return None;
+        }
         self.free[k] = false;
         if self.ngiven < 4 {
             self.given[self.ngiven] = k;
@@ -198,13 +219,13 @@ pub fn any_link(k: usize) -> u64 {
 /// arbitrary huge leaf of the given size (PRESENT | PS, frame aligned, outside the pool's frames)
 pub fn any_huge(size: u64) -> u64 {
     let f = any_phys();
-    kani::assume(f % size == 0 && (f + size <= BASE || f >= BASE + 4096 * N as u64));
+    kani::assume(f % size == 0 && f + size <= BASE);
     f | any_flags() | P | PS
 }
 /// arbitrary 4KiB leaf (PRESENT; bit 7 is the PAT bit here)
 pub fn any_leaf() -> u64 {
     let f = any_phys();
-    kani::assume(f % 4096 == 0 && pool_index(f).is_none());
+    kani::assume(f % 4096 == 0 && f < BASE);
     f | any_flags() | P
 }
 /// fill a few slots of a table with garbage (stale contents of a recycled frame / never-zeroed memory)
